@@ -168,8 +168,12 @@ func adapters(r *lib.Report) (int64, int64) {
 			check("CurryParam2", fpgo.CurryParam2(func(a string, b int, s ...int) string { return fmt.Sprint(a, b, s) }, "A", 2)(rest...), fmt.Sprint("A", 2, rest))
 			check("CurryParam3", fpgo.CurryParam3(func(a string, b int, c bool, s ...int) string { return fmt.Sprint(a, b, c, s) }, "A", 2, true)(rest...), fmt.Sprint("A", 2, true, rest))
 			check("CurryParam4", fpgo.CurryParam4(func(a string, b int, c bool, d float64, s ...int) string { return fmt.Sprint(a, b, c, d, s) }, "A", 2, true, 4.5)(rest...), fmt.Sprint("A", 2, true, 4.5, rest))
-			check("CurryParam5", fpgo.CurryParam5(func(a string, b int, c bool, d float64, e string, s ...int) string { return fmt.Sprint(a, b, c, d, e, s) }, "A", 2, true, 4.5, "E")(rest...), fmt.Sprint("A", 2, true, 4.5, "E", rest))
-			check("CurryParam6", fpgo.CurryParam6(func(a string, b int, c bool, d float64, e string, f int, s ...int) string { return fmt.Sprint(a, b, c, d, e, f, s) }, "A", 2, true, 4.5, "E", 6)(rest...), fmt.Sprint("A", 2, true, 4.5, "E", 6, rest))
+			check("CurryParam5", fpgo.CurryParam5(func(a string, b int, c bool, d float64, e string, s ...int) string {
+				return fmt.Sprint(a, b, c, d, e, s)
+			}, "A", 2, true, 4.5, "E")(rest...), fmt.Sprint("A", 2, true, 4.5, "E", rest))
+			check("CurryParam6", fpgo.CurryParam6(func(a string, b int, c bool, d float64, e string, f int, s ...int) string {
+				return fmt.Sprint(a, b, c, d, e, f, s)
+			}, "A", 2, true, 4.5, "E", 6)(rest...), fmt.Sprint("A", 2, true, 4.5, "E", 6, rest))
 			check("MakeVariadicReturn1", fpgo.MakeVariadicReturn1(func(s ...int) string { return fmt.Sprint(s) })(rest...), []string{fmt.Sprint(rest)})
 			check("MakeVariadicReturn2", fpgo.MakeVariadicReturn2(func(s ...int) (string, string) { return "a" + fmt.Sprint(s), "b" })(rest...), []string{"a" + fmt.Sprint(rest), "b"})
 			check("MakeVariadicReturn3", fpgo.MakeVariadicReturn3(func(s ...int) (int, int, int) { return len(s), 2, 3 })(rest...), []int{len(rest), 2, 3})
